@@ -850,6 +850,10 @@ def witness(kind, fmt):
         return first_failure([simple(fmt, ["dot"], 1, 1)], ("resolution",))
     if kind == "resolution":
         scs = [simple(fmt, [st], 1 if fmt in ("docx", "odt") else 2, 2) for st in (("relative", "parent", "absolute", "dot") if fmt not in ("odt", "odp", "ods", "odg") else ("relative", "dot"))]
+        if fmt in ("docx", "pptx", "epub"):
+            # media part in a sub-directory of the usual media directory, and a decoy with the same base name directly in it
+            scs.append(Scenario(fmt, [[Anchor(f"{md}/sub/image1.png", "relative")]], {f"{md}/sub/image1.png": A, f"{md}/image1.png": B},
+                                note="media part in a sub-directory; another part with the same base name in the media directory"))
         if fmt == "xlsx":
             scs.insert(0, Scenario("xlsx", [[Anchor("xl/drawings/media/image1.png", "relative")]], {"xl/drawings/media/image1.png": A, "xl/media/image1.png": B},
                                 note="media part next to the drawing; another part with the same base name in xl/media"))
@@ -865,6 +869,8 @@ def search(ob):
     """Native small-scope search for the obligation id `ob` -> failure dict or None."""
     mod = ob.split("/")[1].split(".py")[0] if "/" in ob else ""
     fmt = FMT_OF.get(mod)
+    if "/lemma#" in ob:
+        return None             # spec-level lemma: nothing to run natively
     if "zip_utils.py::resolve_part_name" in ob:
         return check_resolver("resolve_part_name")
     if "_normalize_relative_path" in ob:
